@@ -830,3 +830,34 @@ impl<'g, G: AffineRepr, T: BorrowMut<Transcript>> Prover<'g, G, T> {
         Ok((proof, self.transcript))
     }
 }
+
+#[cfg(feature = "verif-hooks")]
+impl<'g, G: AffineRepr, T: BorrowMut<Transcript>> Prover<'g, G, T> {
+    /// Fault-injection seam: overwrite the assignment of gate `i`
+    /// after the API has computed it.
+    pub fn verif_overwrite_gate(
+        &mut self,
+        i: usize,
+        l: G::ScalarField,
+        r: G::ScalarField,
+        o: G::ScalarField,
+    ) {
+        self.secrets.a_L[i] = l;
+        self.secrets.a_R[i] = r;
+        self.secrets.a_O[i] = o;
+    }
+}
+
+#[cfg(feature = "verif-hooks")]
+impl<'g, G: AffineRepr, T: BorrowMut<Transcript>> RandomizingProver<'g, G, T> {
+    /// Fault-injection seam: see [`Prover::verif_overwrite_gate`].
+    pub fn verif_overwrite_gate(
+        &mut self,
+        i: usize,
+        l: G::ScalarField,
+        r: G::ScalarField,
+        o: G::ScalarField,
+    ) {
+        self.prover.verif_overwrite_gate(i, l, r, o)
+    }
+}
